@@ -7,6 +7,7 @@ import ExecnetVerif.Proofs.Net.Got
 import ExecnetVerif.Proofs.Net.Cb
 import ExecnetVerif.Proofs.Net.Fin
 import ExecnetVerif.Props.C04Bytes
+import ExecnetVerif.Props.NetGranularity
 namespace ExecnetVerif
 open Net
 
